@@ -180,19 +180,21 @@ func c05Accessors(o xpmock.Outcome) (anyValue bool, allErr bool) {
 // data trees every machine is run on: what a path denotes decides which operand shapes meet
 // (single values, multi-valued leaf-lists on both sides of an operator, absent nodes, empty values)
 var c05Trees = []struct {
-	name   string
-	answer func(string) xp.Answer
+	name      string
+	answer    func(string) xp.Answer
+	nilValues bool
 }{
-	{"leaf-per-path", c02Answer},
-	{"leaf-lists-everywhere", func(string) xp.Answer { return xp.Answer{Kind: xp.AnsLeafList, Vals: []string{"1", "x", "3"}} }},
-	{"absent-or-leaf-list", c06Tables[2]},
-	{"nothing-exists", func(string) xp.Answer { return xp.Answer{Kind: xp.AnsAbsent} }},
+	{"leaf-per-path", c02Answer, false},
+	{"nil-values-without-error", c02Answer, true},
+	{"leaf-lists-everywhere", func(string) xp.Answer { return xp.Answer{Kind: xp.AnsLeafList, Vals: []string{"1", "x", "3"}} }, false},
+	{"absent-or-leaf-list", c06Tables[2], false},
+	{"nothing-exists", func(string) xp.Answer { return xp.Answer{Kind: xp.AnsAbsent} }, false},
 	{"empty-values", func(p string) xp.Answer {
 		if core.Hash(p)%2 == 0 {
 			return xp.Answer{Kind: xp.AnsLeaf, Vals: []string{""}}
 		}
 		return xp.Answer{Kind: xp.AnsLeafList, Vals: []string{}}
-	}},
+	}, false},
 }
 
 func c05RunTotal(m *xpath.Machine, in, grammar string, res *core.CaseResult) {
@@ -206,7 +208,7 @@ func c05RunTotal(m *xpath.Machine, in, grammar string, res *core.CaseResult) {
 		pan, msg, stack := core.Guard(func() {
 			if mi > 0 {
 				res.Ev("runs_on_tree_"+c05Trees[mi-1].name, 1)
-				o = xpmock.Run(m, &xpmock.Tree{Default: c05Trees[mi-1].answer})
+				o = xpmock.Run(m, &xpmock.Tree{Default: c05Trees[mi-1].answer, NilValues: c05Trees[mi-1].nilValues})
 			} else {
 				o = c05RunNoTree(m)
 			}
